@@ -22,7 +22,7 @@ ASSUMPTIONS = ["schedule-owning in-process pool is faithful to ordered-pool sema
 
 @st.composite
 def cases(draw, tier="quick"):
-    spec = draw(plotgen.plot_specs(thin=True, max_cells=3000 if tier == "quick" else 10000, max_fields=6,
+    spec = draw(plotgen.plot_specs(thin=True, many=True, max_cells=3000 if tier == "quick" else 10000, max_fields=6,
                                    payload_kinds=("special", "coded", "random"),
                                    layouts=("scatter", "nonmono", "single")))
     plot = plotgen.Plot(spec)
@@ -101,6 +101,19 @@ def check_case(case, ctx):
                 v.append(f"{desc} schedule exec={sched.log[:1]} lazy={sc.get('lazy')}: yielded {len(got)} boxes, "
                          f"not every stored box exactly once with its exact data ({nb} boxes in {nfiles} files)")
                 break
+        # history: a level object that has already answered a single-box read and a one-box .iter() still iterates right
+        if fmust and qi % 2 == 0:
+            ctx.label("history:stream-reused")
+            try:
+                stream = qcall(lambda: pck[fobj][lv])
+                qcall(lambda: stream[nb - 1])
+                qcall(lambda: list(stream.iter(0)))
+                got = qcall(lambda: list(stream))
+                if not all(isinstance(g, np.ndarray) for g in got) or _multiset(got) != exp_ms:
+                    v.append(f"{desc}: after a single-box read and a one-box .iter() through the same level object, iterating "
+                             f"it no longer yields every stored box exactly once with its exact data")
+            except Exception as e:
+                v.append(f"{desc}: re-using one level object (box read, .iter(0), iteration) raised {type(e).__name__}: {e}")
         # on-demand iterator over a box selection: ordered
         bobj, bidx, bmust, bsingle = box_arg(q["b"], nb)
         try:
